@@ -6,13 +6,14 @@
 // measured per-stage lane maxima must stay below the model's bound, (iii) every table word the
 // transfer functions rely on is checked, (iv) concrete worst-case runs agree with the exact value.
 #include <dlfcn.h>
+#include <set>
 #include "../harness/bufs.hpp"
 #include "../harness/envelope.hpp"
 using namespace vf;
 
 // ---------------------------------------------------------------------------------------------
 // interposer: records every stage call of the real NTT drivers
-struct StageCall { int kind; uint64_t nn; const void* meta; uint64_t lo, hi; uint64_t maxin[4], maxout[4]; };
+struct StageCall { int kind; uint64_t nn; const void* meta; uint64_t lo, hi; uint64_t maxin[4], maxout[4]; const void* po = 0; const void* rp = 0; };
 static std::vector<StageCall>* g_trace = 0;
 static const uint64_t* g_base = 0;
 static long g_interposed_calls = 0;
@@ -28,11 +29,11 @@ template <class F> static F real_fn(const char* name) {
 }
 enum { SK_FIRST, SK_ITER, SK_ITER_RED, SK_INV_ITER, SK_INV_ITER_RED, SK_FIRST_RED };
 static const char* SKN[] = {"first", "iter", "iter_red", "inv-iter", "inv-iter_red", "first_red"};
-static StageCall* pre(int kind, uint64_t nn, const void* begin, const void* end, const void* meta) {
+static StageCall* pre(int kind, uint64_t nn, const void* begin, const void* end, const void* meta, const void* po = 0, const void* rp = 0) {
   ++g_interposed_calls;
   if (g_ctx()) g_ctx()->metric_add(7);
   if (!g_trace) return 0;
-  StageCall c; c.kind = kind; c.nn = nn; c.meta = meta;
+  StageCall c; c.kind = kind; c.nn = nn; c.meta = meta; c.po = po; c.rp = rp;
   c.lo = ((const uint64_t*)begin - g_base) / 4; c.hi = ((const uint64_t*)end - g_base) / 4;
   lane_max(begin, end, c.maxin);
   g_trace->push_back(c);
@@ -41,27 +42,27 @@ static StageCall* pre(int kind, uint64_t nn, const void* begin, const void* end,
 extern "C" {
 void ntt_iter_first(void* begin, const void* end, const q120_ntt_step_precomp* it, const void* po) {
   static auto f = real_fn<void (*)(void*, const void*, const q120_ntt_step_precomp*, const void*)>("ntt_iter_first");
-  StageCall* c = pre(SK_FIRST, 0, begin, end, it); f(begin, end, it, po); if (c) lane_max(begin, end, c->maxout);
+  StageCall* c = pre(SK_FIRST, 0, begin, end, it, po); f(begin, end, it, po); if (c) lane_max(begin, end, c->maxout);
 }
 void ntt_iter_first_red(void* begin, const void* end, const q120_ntt_step_precomp* it, const void* po, const q120_ntt_reduc_step_precomp* rp) {
   static auto f = real_fn<void (*)(void*, const void*, const q120_ntt_step_precomp*, const void*, const q120_ntt_reduc_step_precomp*)>("ntt_iter_first_red");
-  StageCall* c = pre(SK_FIRST_RED, 0, begin, end, it); f(begin, end, it, po, rp); if (c) lane_max(begin, end, c->maxout);
+  StageCall* c = pre(SK_FIRST_RED, 0, begin, end, it, po, rp); f(begin, end, it, po, rp); if (c) lane_max(begin, end, c->maxout);
 }
 void ntt_iter(uint64_t nn, void* begin, const void* end, const q120_ntt_step_precomp* it, const void* po) {
   static auto f = real_fn<void (*)(uint64_t, void*, const void*, const q120_ntt_step_precomp*, const void*)>("ntt_iter");
-  StageCall* c = pre(SK_ITER, nn, begin, end, it); f(nn, begin, end, it, po); if (c) lane_max(begin, end, c->maxout);
+  StageCall* c = pre(SK_ITER, nn, begin, end, it, po); f(nn, begin, end, it, po); if (c) lane_max(begin, end, c->maxout);
 }
 void ntt_iter_red(uint64_t nn, void* begin, const void* end, const q120_ntt_step_precomp* it, const void* po, const q120_ntt_reduc_step_precomp* rp) {
   static auto f = real_fn<void (*)(uint64_t, void*, const void*, const q120_ntt_step_precomp*, const void*, const q120_ntt_reduc_step_precomp*)>("ntt_iter_red");
-  StageCall* c = pre(SK_ITER_RED, nn, begin, end, it); f(nn, begin, end, it, po, rp); if (c) lane_max(begin, end, c->maxout);
+  StageCall* c = pre(SK_ITER_RED, nn, begin, end, it, po, rp); f(nn, begin, end, it, po, rp); if (c) lane_max(begin, end, c->maxout);
 }
 void intt_iter(uint64_t nn, void* begin, const void* end, const q120_ntt_step_precomp* it, const void* po) {
   static auto f = real_fn<void (*)(uint64_t, void*, const void*, const q120_ntt_step_precomp*, const void*)>("intt_iter");
-  StageCall* c = pre(SK_INV_ITER, nn, begin, end, it); f(nn, begin, end, it, po); if (c) lane_max(begin, end, c->maxout);
+  StageCall* c = pre(SK_INV_ITER, nn, begin, end, it, po); f(nn, begin, end, it, po); if (c) lane_max(begin, end, c->maxout);
 }
 void intt_iter_red(uint64_t nn, void* begin, const void* end, const q120_ntt_step_precomp* it, const void* po, const q120_ntt_reduc_step_precomp* rp) {
   static auto f = real_fn<void (*)(uint64_t, void*, const void*, const q120_ntt_step_precomp*, const void*, const q120_ntt_reduc_step_precomp*)>("intt_iter_red");
-  StageCall* c = pre(SK_INV_ITER_RED, nn, begin, end, it); f(nn, begin, end, it, po, rp); if (c) lane_max(begin, end, c->maxout);
+  StageCall* c = pre(SK_INV_ITER_RED, nn, begin, end, it, po, rp); f(nn, begin, end, it, po, rp); if (c) lane_max(begin, end, c->maxout);
 }
 }
 
@@ -158,6 +159,71 @@ static void run_ntt(Ctx& ctx, uint64_t n, bool inverse, bool traces) {
         }
       if (!err.empty()) ctx.violation(id, "the executed schedule is not the certified one: " + err);
       else ctx.metric_add(6);
+      // 2b. every real stage function once more, alone, on lanes from a boundary alphabet inside the certified input bound of that
+      //     stage (all pairs of alphabet entries meet in a butterfly): the output must be the stage's linear map modulo each prime
+      //     (twiddles read from the table) and stay below the certified output bound - for sparse / small / boundary data as well
+      if (err.empty() && pat == 5 && n <= 2048) {
+        std::set<std::pair<int, long>> done;
+        for (auto& c : tr) {
+          long mi = (const q120_ntt_step_precomp*)c.meta - pc->level_metadata;
+          if (!done.insert({c.kind, mi}).second) continue;
+          const EnvStage* S = 0; for (auto& st : R.stages) if (st.meta == mi) S = &st;
+          if (!S) continue;
+          const uint64_t L = c.hi - c.lo, nn = c.nn, half = nn / 2;
+          // alphabet per prime, all entries <= Uin
+          std::vector<uint64_t> A[4];
+          for (int k = 0; k < 4; ++k) {
+            const u128 U = S->Uin[k]; const uint64_t q = QS[k];
+            std::vector<u128> cand = {0, 1, 2, q - 1, q, q + 1, 2 * (u128)q, U, U - 1, U / 2, U / 2 + 1, ((const q120_ntt_step_precomp*)c.meta)->q2bs[k], (u128)((const q120_ntt_step_precomp*)c.meta)->q2bs[k] + 1, (u128)((const q120_ntt_step_precomp*)c.meta)->q2bs[k] - 1};
+            for (int j = 28; j <= 64; j += 4) { cand.push_back(((u128)1 << j) - 1); cand.push_back((u128)1 << j); }
+            for (u128 v : cand) A[k].push_back((uint64_t)(v > U ? U : v));   // same length for every prime: entry i is "the same kind of value" in all four lanes
+          }
+          const size_t na = A[0].size();
+          GBuf w(32 * L, 0);
+          for (size_t r = 0; r < na && err.empty(); ++r) {
+            uint64_t* d = w.as<uint64_t>();
+            for (uint64_t e = 0; e < L; ++e) {
+              size_t idx;
+              if (nn) { uint64_t blk = e / nn, j = e % nn, pidx = blk * half + (j % half); idx = (j < half) ? pidx % na : (pidx / na + pidx + r) % na; }
+              else idx = (e + r) % na;
+              for (int k = 0; k < 4; ++k) d[4 * e + k] = A[k][idx];
+            }
+            std::vector<uint64_t> in(d, d + 4 * L);
+            void* b = w.p; const void* en = w.p + 32 * L;
+            const q120_ntt_step_precomp* itd = (const q120_ntt_step_precomp*)c.meta;
+            const q120_ntt_reduc_step_precomp* rp = (const q120_ntt_reduc_step_precomp*)c.rp;
+            std::vector<StageCall>* keep = g_trace; g_trace = 0;
+            switch (c.kind) {
+              case SK_FIRST: ntt_iter_first(b, en, itd, c.po); break;
+              case SK_FIRST_RED: ntt_iter_first_red(b, en, itd, c.po, rp); break;
+              case SK_ITER: ntt_iter(nn, b, en, itd, c.po); break;
+              case SK_ITER_RED: ntt_iter_red(nn, b, en, itd, c.po, rp); break;
+              case SK_INV_ITER: intt_iter(nn, b, en, itd, c.po); break;
+              default: intt_iter_red(nn, b, en, itd, c.po, rp); break;
+            }
+            g_trace = keep;
+            const uint64_t* po = (const uint64_t*)c.po;
+            for (uint64_t e = 0; e < L && err.empty(); ++e) for (int k = 0; k < 4; ++k) {
+              const uint64_t q = QS[k];
+              uint64_t want;
+              if (!nn) want = mulmod(in[4 * e + k] % q, (po[4 * e + k] & 0xFFFFFFFFull) % q, q);
+              else {
+                uint64_t j = e % nn, jj = j % half, ea = e - j + jj, eb = ea + half;
+                uint64_t a = in[4 * ea + k] % q, bb = in[4 * eb + k] % q;
+                uint64_t tw = jj ? (po[4 * (jj - 1) + k] & 0xFFFFFFFFull) % q : 1;
+                if (c.kind == SK_ITER || c.kind == SK_ITER_RED) want = j < half ? (a + bb) % q : mulmod((a + q - bb) % q, tw, q);
+                else { uint64_t bo = mulmod(bb, tw, q); want = j < half ? (a + bo) % q : (a + q - bo) % q; }
+              }
+              const uint64_t got = d[4 * e + k];
+              if (got % q != want) err = sfmt("stage %s(nn=%llu) run alone on boundary lanes: element %llu prime %d is %llu = %llu mod q, the stage's linear map gives %llu (inputs a=%llu b=%llu)", SKN[c.kind], (unsigned long long)nn, (unsigned long long)e, k, (unsigned long long)got, (unsigned long long)(got % q), (unsigned long long)want, (unsigned long long)in[4 * (nn ? (e - e % nn + (e % nn) % half) : e) + k], (unsigned long long)(nn ? in[4 * (e - e % nn + (e % nn) % half + half) + k] : 0));
+              else if ((u128)got > S->Uout[k]) err = sfmt("stage %s(nn=%llu) run alone on boundary lanes: element %llu prime %d is %llu, above the certified output bound", SKN[c.kind], (unsigned long long)nn, (unsigned long long)e, k, (unsigned long long)got);
+            }
+          }
+          if (!w.guards_ok()) err = "a stage function wrote outside its range";
+          if (!err.empty()) { ctx.violation(id, "a stage function is not the certified transfer function: " + err); break; }
+          ctx.metric_add(7, 0);
+        }
+      }
       // end-to-end: transform then inverse is the identity modulo each prime (concrete, extremal data)
       {
         q120_ntt_precomp* pc2 = inverse ? q120_new_ntt_bb_precomp(n) : q120_new_intt_bb_precomp(n);
